@@ -16,8 +16,9 @@ import hashlib
 
 HERE = os.path.dirname(os.path.abspath(__file__))
 REPO = os.environ.get("VERIF_REPO", "/repo")
-EVIDENCE_DIR = os.path.join(HERE, "evidence")
-REPLAY_DIR = os.path.join(HERE, "replays")
+# evidence normally goes to /verif/evidence; runs against deliberately broken trees (tools/eval_seeded.py) redirect it
+EVIDENCE_DIR = os.environ.get("VERIF_EVIDENCE_DIR") or os.path.join(HERE, "evidence")
+REPLAY_DIR = os.environ.get("VERIF_REPLAY_DIR") or os.path.join(HERE, "replays")
 KNOWN = os.path.join(HERE, "known_findings.json")
 
 
